@@ -17,7 +17,7 @@ PROPS = {
  "C08": dict(needs=["Base", "Num", "NumProofs", "Lex", "ParseProofs", "Strings", "Builtins", "Interp", "LinkNames", "ImpSearch"], gen=["GenParse", "GenNames", "GenIO"], slices=[("slices_text", "c08_codec"), ("slices_text", "c08_spellings"), ("slices_world", "c15_search")]),
  "C09": dict(needs=["Base", "Num", "NumProofs", "Lex", "ParseProofs"], gen=["GenParse"], slices=[("slices_text", "c09_parse")]),
  "C14": dict(needs=REFINE + ["Files", "FilesProofs", "FilesTotal", "LinkNames", "RunG", "IOSpec", "FileIO"], gen=["GenIO"], slices=[("slices_world", "c14_histories"), ("slices_world", "c14_total_histories"), ("slices_world", "c14_in_model"), ("slices_world", "c14_faults")]),
- "C15": dict(needs=REFINE + ["ImpSearch", "ImportProofs", "ImpLoad", "ModFS", "ModFSProofs", "RunG", "ImportMain", "Pure"], gen=[], slices=[("slices_world", "c15_search"), ("slices_world", "c15_semantics"), ("slices_world", "c15_in_model")]),
+ "C15": dict(needs=REFINE + ["ImpSearch", "ImportProofs", "ImpLoad", "ModFS", "ModFSProofs", "RunG", "ImportMain", "ImportDisk", "Pure"], gen=[], slices=[("slices_world", "c15_search"), ("slices_world", "c15_semantics"), ("slices_world", "c15_in_model")]),
  "C06": dict(needs=CORE + ["Float", "Eq", "Complex", "HeapFacts", "Refine1", "Refine2", "RunG", "Order", "EqLink", "DictLink"], gen=[], slices=[("slices_values", "c06_eq")]),
  "C12": dict(needs=REFINE + ["SeqProofs", "SliceReal", "RunG", "SeqSpec", "SeqLink"], gen=[], slices=[("slices_values", "c12_seq")]),
  "C16": dict(needs=CORE + ["HeapFacts", "Refine1", "Refine2", "RunG", "Codec", "Bits", "Utf", "Utf16", "StrCodec"], gen=[], slices=[("slices_values", "c16_codecs")]),
